@@ -808,7 +808,7 @@ class Interp:
         if isinstance(e, ast.BoolOp):
             return join(*[self.val(v, env) for v in e.values])
         if isinstance(e, ast.NamedExpr):
-            v = self.val(e.value, env)
+            v = self.val_tv(e.value, env)  # (a tuple result keeps its positions: `if (r := f()) is not None: return r`)
             if isinstance(e.target, ast.Name):
                 env[e.target.id] = v
             return v
